@@ -468,7 +468,7 @@ def miri_job(name, prop, binname, prog_args, seeds, seed, timeout, extra_flags="
             if binname != "miri_queue":
                 pm = re.search(r"property=(C\d\d)", line)
                 if pm:
-                    targets, cls = [pm.group(1)], "oracle-failed-under-miri-virtual-time"
+                    targets, cls = [pm.group(1)], ("oracle-failed-under-miri-virtual-time" if binname == "miri_time" else "oracle-failed-under-miri")
             for t in targets:
                 viols.append({"property": t, "rule": "miri-history-oracle", "class": cls, "detail": "under Miri (random preemptive scheduler): " + line[:400], "replay_args": [], "trace": {"MIRIFLAGS": flags}})
         rep = {"evaluations": len(oks), "distinct": ["miri-%s-%s" % (binname, l.split(" ok ", 1)[-1]) for l in oks], "distinct_count": len(set(oks)), "trivial": 0,
@@ -528,6 +528,8 @@ def _c18(bindir, tier, seed):
     if tier == QUICK:
         jobs = shards(bindir, "holder_driver", "C18", seed, NCPU - 2, ["--level", "core", "--max-schedules", "8000"], 1200)
         jobs.append(miri_job("C18-miri-holder", "C18", "holder_stress", ["3", "2", "2", "3"], 16, seed, 1500))
+        # the global functions on top of the holder: two racing set_global_default, a thread checking that 'is set' implies 'get works'
+        jobs.append(miri_job("C18-miri-globals", "C18", "macro_miri", ["2", "1"], 16, seed, 1500, fail_marker="MACRO-ORACLE-FAILED"))
         jobs.append(native_stress_job("C18-native-stress", "C18", bindir, "holder_stress", ["20000", "2", "3", "6"], 600, runs=4))
         # sampled schedules of configurations beyond the enumerated scope (2-4 threads, up to 4 operations per thread)
         jobs += shards(bindir, "holder_driver", "C18s", seed, 2, ["--mode", "sample", "--runs", "2500"], 1200)
@@ -536,6 +538,7 @@ def _c18(bindir, tier, seed):
     for k in range(4):
         jobs.append(miri_job("C18-miri-holder-%d" % k, "C18", "holder_stress", [["4", "2", "2", "3"], ["3", "3", "2", "2"], ["3", "2", "3", "4"], ["6", "1", "3", "3"]][k], 64, seed + 17 * k, 7200))
     jobs += shards(bindir, "holder_driver", "C18s", seed, NCPU, ["--mode", "sample", "--runs", "150000", "--schedules-per-config", "150"], 7200)
+    jobs.append(miri_job("C18-miri-globals", "C18", "macro_miri", ["2", "1"], 128, seed, 7200, fail_marker="MACRO-ORACLE-FAILED"))
     jobs.append(tsan_job("C18-tsan-holder", "C18", "holder_stress", ["2000", "2", "3", "6"], 7200, runs=10))
     jobs.append(native_stress_job("C18-native-stress", "C18", bindir, "holder_stress", ["200000", "3", "3", "6"], 7200, runs=16))
     return jobs
